@@ -346,3 +346,88 @@ PROPS["C03"] = {
     "outside": "dimensions above 3 / 2x3; element values that are infinite or NaN; integer element types; map-order dependence of Reduce",
     "assumptions": ["map iteration order modelled as ascending key order", "non-zero elements are finite (0*Inf style differences between skipping and multiplying are outside the statement's 'mathematical result')"],
 }
+
+# ----------------------------------------------------------------------------- C11
+def _nkeys(pat, n):
+    k = 0
+    for i in range(n):
+        if (pat // 4 ** i) % 4 != 1:
+            k += 1
+    return k
+
+
+def c11_jobs(tier):
+    jobs = []
+    quick = tier == "quick"
+    n = 3
+    nshapes = {0: 1, 1: 1, 2: 2, 3: 1, 4: 4}
+
+    def enc(ds):
+        v = 0
+        for d in reversed(ds):
+            v = v * 4 + d
+        return v
+    if quick:
+        pats = [enc(p) for p in ([0, 0, 0], [1, 1, 1], [0, 1, 0], [1, 0, 1], [2, 0, 1], [0, 2, 0], [3, 0, 1], [0, 1, 3], [1, 0, 0], [0, 0, 1], [2, 1, 2], [0, 3, 0])]
+    else:
+        pats = list(range(4 ** n))
+    xpats = [enc([0, 0, 0]), enc([1, 0, 1]), enc([0, 1, 2])]
+    for pat in pats:
+        for sh in range(nshapes[_nkeys(pat, n)]):
+            def J(op, a1=0, a2=0):
+                jobs.append({"func": "verif_C11_step", "args": [n, pat, sh, op, a1, a2], "tag": f"n={n} pat={pat} shape={sh} op={op} a=({a1},{a2})"})
+            for i in range(n):
+                J(0, i)
+                J(1, i)
+                J(11, i)
+            for xp in xpats:
+                for k in (0, 2):
+                    J(2, xp, k)
+                    J(13, xp, k)
+            J(3)
+            for i in range(n):
+                for j in range(i, n):
+                    J(4, i, j)
+            for p in range(6):
+                J(5, p)
+            J(6, 0)
+            J(6, 1)
+            J(7)
+            for i in range(n + 1):
+                for j in range(i, n + 1):
+                    if quick and (i, j) not in ((0, 3), (1, 3), (0, 2), (1, 2), (2, 2)):
+                        continue
+                    J(8, i, j)
+            J(9, enc([0, 1]))
+            J(9, enc([2, 0]))
+            J(10)
+            for k in range(n):
+                for pos in range(n):
+                    if quick and (k + pos) % 2 == 1:
+                        continue
+                    J(12, k, pos)
+    # matrices 2x2
+    for pat in ([enc([0, 0, 0, 0]), enc([1, 0, 0, 1]), enc([0, 1, 2, 0]), enc([1, 1, 1, 1])]):
+        for a1 in range(4):
+            jobs.append({"func": "verif_C11_matrix", "args": [2, 2, pat, 0, a1, 0]})
+            jobs.append({"func": "verif_C11_matrix", "args": [2, 2, pat, 3, a1, 0]})
+            for a2 in range(a1 + 1, 4):
+                jobs.append({"func": "verif_C11_matrix", "args": [2, 2, pat, 2, a1, a2]})
+        jobs.append({"func": "verif_C11_matrix", "args": [2, 2, pat, 1, 0, 0]})
+    return jobs
+
+
+PROPS["C11"] = {
+    "overlay": [RT, VIEWS, ("root/zz_verif_c03.go", "zz_verif_c03.go"), ("root/zz_verif_c19.go", "zz_verif_c19.go"), ("root/zz_verif_c11.go", "zz_verif_c11.go")],
+    "mode": "fp", "intmode": "int",
+    "jobs": c11_jobs,
+    "reach": ["C11-pre", "C11-post", "C11-matrix"],
+    "selftest_vars": ["v", "w", "x", "s"],
+    "bounds": {"quick": "SparseFloat64Vector of dimension 3: 12 representation patterns (stored non-zero / absent / stored zero / index key without value per position) x every AVL index shape over the keys, "
+                        "one public operation (14 groups, all in-range arguments) with symbolic values; 2x2 sparse matrices from public constructors",
+               "thorough": "all 64 representation patterns"},
+    "outside": "dimension above 3; element types other than Float64 (same template text); histories are covered through the inductive step: pre-states are arbitrary representations satisfying the weak invariant "
+               "(values' keys are in the index, no nil scalars, AVL invariants)",
+    "assumptions": ["map iteration order modelled as ascending key order",
+                    "for Permute/Sort/ReverseOrder the dense vector implementation run on the same data is the model"],
+}
